@@ -244,6 +244,9 @@ pub unsafe extern "C" fn jsonnet_evaluate_file(
 	filename: *const c_char,
 	error: &mut c_int,
 ) -> *const c_char {
+	// Imports, ext vars and native callbacks are resolved through the entered state;
+	// None means that we're called from a native callback of an already running evaluation
+	let _entered = vm.state.try_enter();
 	let filename = unsafe { parse_path(CStr::from_ptr(filename)) };
 	match vm
 		.state
@@ -278,6 +281,9 @@ pub unsafe extern "C" fn jsonnet_evaluate_snippet(
 	snippet: *const c_char,
 	error: &mut c_int,
 ) -> *const c_char {
+	// Imports, ext vars and native callbacks are resolved through the entered state;
+	// None means that we're called from a native callback of an already running evaluation
+	let _entered = vm.state.try_enter();
 	let filename = unsafe { CStr::from_ptr(filename) };
 	let snippet = unsafe { CStr::from_ptr(snippet) };
 	match vm
@@ -337,6 +343,9 @@ pub unsafe extern "C" fn jsonnet_evaluate_file_multi(
 	filename: *const c_char,
 	error: &mut c_int,
 ) -> *const c_char {
+	// Imports, ext vars and native callbacks are resolved through the entered state;
+	// None means that we're called from a native callback of an already running evaluation
+	let _entered = vm.state.try_enter();
 	let filename = unsafe { parse_path(CStr::from_ptr(filename)) };
 	match vm
 		.state
@@ -365,6 +374,9 @@ pub unsafe extern "C" fn jsonnet_evaluate_snippet_multi(
 	snippet: *const c_char,
 	error: &mut c_int,
 ) -> *const c_char {
+	// Imports, ext vars and native callbacks are resolved through the entered state;
+	// None means that we're called from a native callback of an already running evaluation
+	let _entered = vm.state.try_enter();
 	let filename = unsafe { CStr::from_ptr(filename) };
 	let snippet = unsafe { CStr::from_ptr(snippet) };
 	match vm
@@ -419,6 +431,9 @@ pub unsafe extern "C" fn jsonnet_evaluate_file_stream(
 	filename: *const c_char,
 	error: &mut c_int,
 ) -> *const c_char {
+	// Imports, ext vars and native callbacks are resolved through the entered state;
+	// None means that we're called from a native callback of an already running evaluation
+	let _entered = vm.state.try_enter();
 	let filename = unsafe { parse_path(CStr::from_ptr(filename)) };
 	match vm
 		.state
@@ -447,6 +462,9 @@ pub unsafe extern "C" fn jsonnet_evaluate_snippet_stream(
 	snippet: *const c_char,
 	error: &mut c_int,
 ) -> *const c_char {
+	// Imports, ext vars and native callbacks are resolved through the entered state;
+	// None means that we're called from a native callback of an already running evaluation
+	let _entered = vm.state.try_enter();
 	let filename = unsafe { CStr::from_ptr(filename) };
 	let snippet = unsafe { CStr::from_ptr(snippet) };
 	match vm
